@@ -695,6 +695,9 @@ func report(p *Prop, tier string, seed uint64, b Budget, results []*shardResult,
 		"wall_s":      wall.Seconds(),
 		"violations":  nviol,
 	}
+	if os.Getenv("VERIF_MERGE") == "1" {
+		mergeEvidence(ev, filepath.Join(verifDir(), "evidence", p.ID+".json"))
+	}
 	data, _ := json.MarshalIndent(ev, "", " ")
 	os.MkdirAll(filepath.Join(verifDir(), "evidence"), 0755)
 	if err := os.WriteFile(filepath.Join(verifDir(), "evidence", p.ID+".json"), data, 0644); err != nil {
@@ -836,3 +839,66 @@ func detWorker(p *Prop, tier string) int {
 }
 
 func fnvNew() hash.Hash64 { return fnv.New64a() }
+
+// mergeEvidence folds the evidence an earlier run (the other world's build) wrote for the same
+// property into ev: counts add up, maps and samples are united, the earlier part is kept verbatim.
+func mergeEvidence(ev map[string]any, path string) {
+	data, err := os.ReadFile(path)
+	if err != nil {
+		return
+	}
+	var old map[string]any
+	if json.Unmarshal(data, &old) != nil {
+		return
+	}
+	oc, _ := old["coverage"].(map[string]any)
+	nc, _ := ev["coverage"].(map[string]any)
+	if oc == nil || nc == nil {
+		return
+	}
+	num := func(v any) float64 {
+		switch x := v.(type) {
+		case float64:
+			return x
+		case int:
+			return float64(x)
+		}
+		return 0
+	}
+	for _, k := range []string{"evaluations", "distinct_nontrivial", "distinct_interleavings", "states"} {
+		nc[k] = int(num(nc[k]) + num(oc[k]))
+	}
+	nc["simulated_time_s"] = num(nc["simulated_time_s"]) + num(oc["simulated_time_s"])
+	for _, k := range []string{"fault_kinds_fired", "reach_probes"} {
+		om, _ := oc[k].(map[string]any)
+		nm, _ := nc[k].(map[string]int)
+		merged := map[string]int{}
+		for kk, v := range nm {
+			merged[kk] = v
+		}
+		for kk, v := range om {
+			merged[kk] += int(num(v))
+		}
+		nc[k] = merged
+	}
+	if os, ok := oc["samples"].([]any); ok {
+		ns, _ := nc["samples"].([]any)
+		nc["samples"] = append(os, ns...)
+	}
+	nc["rule"] = fmt.Sprint(oc["rule"]) + " || " + fmt.Sprint(nc["rule"])
+	nc["worlds"] = fmt.Sprint(oc["worlds"]) + "+" + fmt.Sprint(nc["worlds"])
+	if pr, ok := nc["reach_probes"].(map[string]int); ok {
+		nc["traces_validated_against_impl"] = pr["validated_on_real_kernel"]
+	}
+	nc["earlier_part"] = map[string]any{"worlds": oc["worlds"], "evaluations": oc["evaluations"], "components": oc["components"], "runs_per_hour": oc["runs_per_hour"], "wall_s": old["wall_s"]}
+	ev["wall_s"] = num(ev["wall_s"]) + num(old["wall_s"])
+	ev["violations"] = int(num(ev["violations"]) + num(old["violations"]))
+	if oa, ok := old["assumptions"].([]any); ok {
+		na, _ := ev["assumptions"].([]string)
+		var all []string
+		for _, a := range oa {
+			all = append(all, fmt.Sprint(a))
+		}
+		ev["assumptions"] = append(all, na...)
+	}
+}
